@@ -8,13 +8,13 @@ Theorems (lean/Mistletoe/Props/C05.lean; lemmas in Proofs/Locality.lean, 2770 li
     back-off, Footnote's hand-back, every backstep, List.read's reset to its anchor) ever looks at or steps back into
     an earlier line; needs only that lines are complete (a counterexample with an embedded newline is kernel-checked
     and reproduced on the real code: outside Document(str));
-  * `C05_prefix_partial`: for A whose top-level blocks contain no list and whose last block is closed (paragraph,
-    setext/ATX heading, thematic break, quote, table), parsing A followed by an empty line and ANY further lines
-    reaches the boundary with A's entries and A's state;
-  * `C05_blank_line_independent_partial`: under those hypotheses and A defining no references,
-    blockPhase(A ++ ["\n"] ++ B) = A's entries ++ B's entries shifted by |A|+1, loose.
-  The restriction "no top-level list in A" is recorded as partial: List.read re-reads an item from its anchor after a
-  marker mismatch; the full statement is explored on the implementation.
+  * `C05_prefix` / `C05_blank_line_independent` (Props/C05_Lists.lean, lemmas in Proofs/LocalityLists.lean; full strength):
+    for A whose last block is closed (paragraph, setext/ATX heading, thematic break, quote, table), parsing A followed by an
+    empty line and ANY further lines reaches the boundary with A's entries and A's state; with A defining no references,
+    blockPhase(A ++ ["\n"] ++ B) = A's entries ++ B's entries shifted by |A|+1, loose.  (`C05_prefix_partial` in
+    Props/C05.lean is the earlier form restricted to A without a top-level list.  The restriction marked a genuine defect:
+    List.read read the item behind a marker of another type before discarding it, the read ran through the blank line
+    into B, and a definition found there stayed registered - repaired in /repo, the model follows the repaired code.)
 Units: `scan.*` and `block.buffer` (real tokenize_block against the model) on A, B and A + blank line + B of this
 run's pairs.
 Exploration (metamorphic, on the implementation): AST with line numbers of Document(A), Document(B) and
@@ -28,16 +28,14 @@ import impl
 import scan_units
 
 ID = 'C05'
-EXTRA_MODULES = ['Mistletoe.Proofs.Locality']
-RULE = ('pairs (A, B) of spec examples, mutations, splices, random documents and strings such that A ends in a closed block '
+EXTRA_MODULES = ['Mistletoe.Proofs.Locality', 'Mistletoe.Proofs.LocalityLists']
+RULE = ('pairs (A, B) of spec examples, mutations, splices, random documents and strings, and of short sequences of marker-like '
+        'lines followed by a paragraph that uses a label (A) with an indented would-be definition of that label (B), such that A ends in a closed block '
         '(paragraph, heading, thematic break, block quote, table) and neither defines link references; both as str. '
         'Distinct by pair; non-trivial when B has a container or a multi-line block')
 TRUSTED = ['the exporter (harness/export.py) as canonical AST observation incl. line numbers']
 ASSUMPTIONS = []
-PARTIAL = ['prefix half proved for A without a top-level list (List.read re-reads an item from its anchor after a marker '
-           'mismatch; the equal-final-state form of the full statement is false for exotic token orders, see DESIGN.md); the '
-           'full statement (lists anywhere in A) is explored on the implementation',
-           'the theorems are about the block phase; class-level scratch (Heading.level, CodeFence._open_info, '
+PARTIAL = ['the theorems are about the block phase; class-level scratch (Heading.level, CodeFence._open_info, '
            'HtmlBlock._end_cond) is modelled as recomputed from the line start() was called on, and that modelling is what the '
            'block.buffer correspondence on concatenated documents checks; the token constructors and the inline phase are a '
            'function of the buffer and the definitions (none here)']
@@ -73,8 +71,10 @@ def check_witness(w):
         ab, fab = ast(A + '\n' + B)
     except Exception as e:
         return False, 'raised %s (C01)' % type(e).__name__
-    n = A.count('\n') + 1
+    n = len(A.splitlines()) + 1       # Document(str) cuts lines with str.splitlines
     want = a + shift(b, n)
+    if fab:
+        return True, ('neither A nor B defines a link reference, but A + blank + B does: %r; A=%r B=%r' % (fab, A, B))
     if ab != want:
         # locate the first difference
         i = next((i for i, (x, y) in enumerate(zip(ab, want)) if x != y), min(len(ab), len(want)))
@@ -104,6 +104,16 @@ def _cases(ctx):
     for a in extra_a:
         for b in extra_b:
             cases.append({'A': a, 'B': b})
+    # readers that look ahead past the blank line: A made of short marker-like lines and a closed paragraph that USES a label,
+    # B an indented line that would DEFINE it if some reader of A took it in (alone it is an indented code block)
+    import itertools
+    vocab = ['- \n', '-\n', '- a\n', '* * *\n', '* b\n', '+ c\n', '1. d\n', '2) e\n', '\n', '  f\n', '> g\n', '*\tx\n', '---\n', '   - h\n', '10. i\n']
+    for k in (1, 2, 3):
+        for tup in itertools.product(vocab, repeat=k):
+            if tup[0] == '\n' or (k == 3 and rng.random() < (0.0 if ctx.thorough else 0.6)):
+                continue
+            for ind in (4, 6, 8):
+                cases.append({'A': ''.join(tup) + 'p [foo]\n', 'B': ' ' * ind + '[foo]: /u\n'})
     return cases
 
 
